@@ -3,17 +3,17 @@ CONSTANTS
   Nodes = {"A", "B"}
   Order <- OrderAB
   ModsOf <- ModsAB
-  Params = {"value", "sp"}
+  Params = {"value"}
   Values = {1, 2}
   UpErrs = {"hw"}
-  Conns = {"c1", "c2"}
-  StartDown = {}
+  Conns = {"c1"}
+  StartDown = {"B"}
   ReqArgs <- OneArg
   ReqConns <- OneConn
   WaitSteps = {2, 12}
   ReadErrChoice = {TRUE, FALSE}
   GiveUpErrChoice = {TRUE, FALSE}
-  Depth = 3
+  Depth = 4
   Thin = 1
 CONSTRAINT Bound
 ACTION_CONSTRAINT EmitStep
